@@ -79,6 +79,11 @@ func (r *Rollback) Run(name string) error {
 
 	slog.Debug("performing rollback", "name", name)
 	if _, err := r.performRollback(currentRelease, targetRelease); err != nil {
+		if !r.DryRun && targetRelease.Info.Status == release.StatusPendingRollback {
+			// The revision created above must not be left pending: record it as failed.
+			targetRelease.SetStatus(release.StatusFailed, fmt.Sprintf("Rollback %q failed: %s", name, err))
+			r.cfg.recordRelease(targetRelease)
+		}
 		return err
 	}
 
